@@ -44,6 +44,7 @@ type cbParam struct {
 // what the application answers (an element of AppResponses)
 type appAnswer struct {
 	Kind   string `json:"kind"`
+	Via    string `json:"via"` // how the value handed to Error relates to the application's error ("direct", ...)
 	Code   string `json:"code"`
 	Status int    `json:"status"`
 	Msg    string `json:"msg"`
@@ -152,6 +153,16 @@ func entries(c *rp.Ctx, cs *apiCase) []entry {
 			rp.Bug("code %q: %v", cs.App.Code, err)
 		}
 		return int(n)
+	}
+	if cs.App.Kind != "data" && (cs.App.Via != "direct" || cs.App.Kind == "appErrorWithStatus") {
+		// an error that is several kinds at once, or reaches Error behind another value
+		for _, e := range errValues(&cs.App) {
+			e := e
+			checkErrBinding(&cs.App, &cs.Exp, e)
+			add("Error("+e.name+")", func(ctx ol.Context, w http.ResponseWriter, r *http.Request) { oh.Error(ctx, e.err).ServeHTTP(w, r) })
+			add("WriteError("+e.name+")", func(ctx ol.Context, w http.ResponseWriter, r *http.Request) { oh.WriteError(ctx, w, r, e.err) })
+		}
+		return es
 	}
 	switch cs.App.Kind {
 	case "data":
@@ -386,7 +397,11 @@ func judgeResponse(cs *apiCase, status int, hdr http.Header, body string, want i
 	case "coded":
 		p := parseBody(body, cs.Exp.Wrap)
 		if p.obj == nil {
-			return bad("", "%s: body is neither a JSON object nor callback(object): status %d %s", cs.App.Kind, status, clip(body))
+			dev := ""
+			if cs.App.Kind == "appErrorWithStatus" && status == cs.App.Status {
+				dev = "C19/status-shadows-code"
+			}
+			return bad(dev, "%s: the error has its own code %s, but the body is neither a JSON object nor callback(object): status %d %s", cs.App.Kind, cs.App.Code, status, clip(body))
 		}
 		if p.code == nil {
 			return bad("", "%s: body has no numeric code: %s", cs.App.Kind, clip(body))
@@ -403,6 +418,8 @@ func judgeResponse(cs *apiCase, status int, hdr http.Header, body string, want i
 			dev := ""
 			if status == 500 {
 				dev = "C19/status-not-applied"
+			} else if p := parseBody(body, cs.Exp.Wrap); cs.App.Via != "direct" && p.code != nil && p.code.Sign() != 0 {
+				dev = "C19/cause-dispatched"
 			}
 			return bad(dev, "%s: HTTP status %d, want %d", cs.App.Kind, status, cs.Exp.Status)
 		}
